@@ -87,7 +87,8 @@ class BlockDownloadServer:
         self.sub = []            # segments accepted in the current sub-block
         self.last_seen = False
         self.state = "segments"
-        return [sx.mkbytes([0xA0 | (0x04 if self.crc_on else 0)] + self.mux + [self.blksize, 0, 0, 0])]
+        sc = self.use_crc if getattr(self, "sc_capability", False) else self.crc_on
+        return [sx.mkbytes([0xA0 | (0x04 if sc else 0)] + self.mux + [self.blksize, 0, 0, 0])]
 
     expect_mux = None
 
@@ -159,7 +160,9 @@ class BlockDownloadServer:
             self._p(got == want, "crc")
             if not bool(got == want):
                 return self._abort(0x05040004)
-        else:
+        elif not getattr(self, "sc_capability", False):
+            # (when the client did not ask and the server merely states its capability, the field is not looked at:
+            # the property only speaks of the CRC "when negotiated")
             self._p((f[1] == 0) & (f[2] == 0), "crc-field-zero-without-crc")
         if not ok:
             return self._abort(0x06070010)
@@ -173,10 +176,13 @@ class BlockUploadServer:
     numbers restart at 1 after every acknowledge, end frame with n and CRC, waits for the client's end
     confirmation"""
 
-    def __init__(self, value, crc=True, size_indicated=True, tag="C13"):
+    def __init__(self, value, crc=True, size_indicated=True, tag="C13", sc_capability=False):
         self.tag = tag
         self.value = list(value)
         self.use_crc = crc
+        # sc_capability: the sc bit reports what the server *can* do (CiA 301: "server supports generating CRC"),
+        # whatever the client asked for; the CRC is generated only when both bits are set, else the field is 0
+        self.sc_capability = sc_capability
         self.size_indicated = size_indicated
         self.state = "idle"
         self.check = True
@@ -233,7 +239,8 @@ class BlockUploadServer:
         self.next = 0                 # index of the first segment of the current sub-block
         self.state = "wait-start"
         size = le32(len(self.value)) if self.size_indicated else [0, 0, 0, 0]
-        return [sx.mkbytes([0xC0 | (0x04 if self.crc_on else 0) | (0x02 if self.size_indicated else 0)] +
+        sc = self.use_crc if self.sc_capability else self.crc_on
+        return [sx.mkbytes([0xC0 | (0x04 if sc else 0) | (0x02 if self.size_indicated else 0)] +
                            self.mux + size)]
 
     def _send_block(self):
